@@ -308,7 +308,7 @@ func main() {
 				if attempt > 0 {
 					wargs = append(wargs, "-no-minimise")
 				}
-				state, stderr, code := superviseWorker(worker, wargs, wenv, filepath.Join(resDir, fmt.Sprintf("shard-%d.cur", sh)), float64(budget)+120, meta.stall+15)
+				state, stderr, code := superviseWorker(worker, wargs, wenv, filepath.Join(resDir, fmt.Sprintf("shard-%d.cur", sh)), float64(budget)+300, 4*meta.stall+60)
 				if state == "ok" {
 					return
 				}
@@ -359,6 +359,14 @@ func main() {
 						notes = append(notes, fmt.Sprintf("shard %d: worker %s at case %d but the isolated replay did not; not reported", sh, state, idx))
 					}
 					mu.Unlock()
+					if v == nil && state != "died" {
+						// the coordinator's own (coarse, wall-clock) limits, not
+						// confirmed in isolation: a saturated machine, not a
+						// finding; the case is skipped and the shard goes on
+						skip = append(skip, fmt.Sprint(idx))
+						from = next
+						continue
+					}
 					if v == nil && attempt >= 2 {
 						// the worker keeps dying but no single case does it alone:
 						// something that needs the accumulated work of a shard
